@@ -1,14 +1,14 @@
-SPECIFICATION MCSpec
+SPECIFICATION ShapeSpec
 CONSTANTS
-  Actor = {"a", "b", "c", "x"}
+  Actor = {"a", "b", "c", "e"}
   Creator = "a"
-  Initial <- InitialABC
+  Initial <- InitialACb
   Kinds = {"add", "remove", "promote", "demote"}
-  AccessArgs <- ArgsPlain
+  AccessArgs <- ArgsAll4
   Replica = {r1}
-  MaxOps = 3
+  MaxOps = 5
   MaxRejected = 1
-  ShapeAttempts = FALSE
+  ShapeAttempts = TRUE
   Defect_TieBreakByPartialCmp = FALSE
   Defect_NoopModifyUnchecked = FALSE
   Defect_RecreateAccepted = FALSE
